@@ -31,6 +31,13 @@ int g_small_queues;                   /* harnesses whose code loops over queues 
 struct unord_blk *g_my_link;
 unsigned g_parse_garbage;
 struct header g_parse_hd;
+int g_stub_ad;                         /* attach()/detach() replaced by their contract (proved in expand.attach_detach) */
+uintmax_t g_att_avail, g_att_remain;   /* ghost: unread words of the attached input block at attach() / now */
+static uint32_t g_win[2];              /* stand-in for the attached block's words: only data == limit (nothing left) is observable to the tasks */
+int g_became_master;                   /* the parser confirmed this job's candidate while it was outside the monitor */
+int g_master;                          /* this retrieve job holds the parse token on behalf of the parser */
+bool g_s_pt, g_s_pd; struct detached_bitstream g_s_pbs; struct parser_state g_s_par;
+unsigned g_s_order, g_s_units;            /* snapshot taken when this thread last (re-)entered the monitor */
 
 #define CAP_RETR  num_worker
 #define CAP_EMIT  num_worker
@@ -64,6 +71,11 @@ static unsigned dq_index(unsigned head, unsigned i, unsigned mod) { unsigned a =
 static void env_runs(void)
 {
   uintmax_t tail_keep = tail_offs;
+  /* RELY (token ownership): between parse_token = 0 and giving the token back, parse_token, parsing_done, parser_bs and par
+     belong to the token holder -- the running parser, or the master retrieve job it created/confirmed.  The GUARANTEE side is
+     asserted in EXIT_CHECKS of every task that does not hold the token ("parser-owned state untouched"). */
+  int own_token = (g_task == T_PARSE && g_locks > 0) || (g_task == T_RETRIEVE && g_master);
+  bool keep_pt = parse_token, keep_pd = parsing_done; struct detached_bitstream keep_pbs = parser_bs; struct parser_state keep_par = par;
   unsigned a, b, c, d, e, f, g, h, i, j, k, l, m; bool z, pt, pd; uintmax_t ho, to, ro; unsigned em;
   retr_q.size = a; emit_q.size = b; reord_q.size = c; scan_q.size = d; unord_q.size = e; input_q.size = f; input_q.head = g;
   order_q.size = h; order_q.head = i; work_units = j; out_slots = k; g_oth_units = l; g_oth_slots = m;
@@ -77,6 +89,7 @@ static void env_runs(void)
   if ((g_need & N_REORD) && reord_q.size > 0 && reord_q.size <= CAP_REORD) { struct out_blk *o = fresh(sizeof(struct out_blk) + 8); __CPROVER_assume(OBLK_OK(o)); reord_q.root[0] = o; }
   if ((g_need & N_SCAN) && scan_q.size > 0 && scan_q.size <= CAP_SCAN) { struct detached_bitstream *d = fresh(sizeof *d); __CPROVER_assume(d->live <= 63 && (!d->eof || d->live < 32)); scan_q.root[0] = d; }
   if ((g_need & N_UNORD) && unord_q.size > 0 && unord_q.size <= CAP_UNORD) unord_q.root[0] = fresh(sizeof(struct unord_blk));
+  if (own_token) { parse_token = keep_pt; parsing_done = keep_pd; parser_bs = keep_pbs; par = keep_par; pt = keep_pt; pd = keep_pd; }
   if (g_task == T_INPUT && g_locks > 0) to = tail_keep, tail_offs = tail_keep;   /* tail_offs has a single writer: the reader thread running this callback */
   { unsigned os; __CPROVER_assume(os <= total_in_slots); g_oth_scans = os; }
   __CPROVER_assume(input_q.head < input_q.modulus && input_q.size <= input_q.modulus && order_q.head < order_q.modulus && order_q.size <= order_q.modulus);
@@ -89,23 +102,31 @@ static void env_runs(void)
     for (i = 0; i < 2; i++) if (i < input_q.size) {
       struct in_blk *b;
       if (g_my_block && alias == (int)i) { b = g_my_block; __CPROVER_assume(b->offset == off); unsigned rc; __CPROVER_assume(rc >= 2 && rc < 1000); b->ref_count = rc; aliased = 1; }
-      else { b = fresh(sizeof *b); size_t n; __CPROVER_assume(n >= 1 && n <= ((size_t)1 << 20)); b->size = n; b->buffer = fresh(n * 4); b->offset = off; unsigned rc; __CPROVER_assume(rc >= 1 && rc < 1000); b->ref_count = rc; }
+      else { b = fresh(sizeof *b); size_t n; __CPROVER_assume(n >= 1 && n <= ((size_t)1 << 20)); b->size = n; b->buffer = g_stub_ad ? fresh(4) : fresh(n * 4); b->offset = off; unsigned rc; __CPROVER_assume(rc >= 1 && rc < 1000); b->ref_count = rc; }
       input_q.root[dq_index(input_q.head, i, input_q.modulus)] = b;
       off += b->size;
     }
     __CPROVER_assume(tail_offs == off);
     if (g_my_block && !aliased) { unsigned rc; __CPROVER_assume(rc >= 1 && rc < 1000); g_my_block->ref_count = rc; __CPROVER_assume(g_my_block->offset + g_my_block->size <= head_offs); }
   }
-  if (g_my_link) {
+  if (g_my_link && g_locks == 1) {      /* only while the job still reads its link: the first re-entry (detach) */
     /* the parser may have classified this job's candidate meanwhile; a confirmed candidate makes this job the master */
     bool c, l; g_my_link->complete = c; g_my_link->legitimate = l;
     __CPROVER_assume(!(c && l) || !parse_token);
+    g_became_master = c && l;
   }
   /* nobody keeps a position inside an input block that has already been released (advance() drops such jobs) */
   __CPROVER_assume(parsing_done || parser_bs.offset >= head_offs);
   if ((g_need & N_RETR) && retr_q.size > 0 && retr_q.size <= CAP_RETR) { struct retr_blk *r = retr_q.root[0]; __CPROVER_assume(r->curr_pos.offset >= head_offs && r->curr_pos.live <= 63 && (!r->curr_pos.eof || r->curr_pos.live < 32)); }
   if ((g_need & N_SCAN) && scan_q.size > 0 && scan_q.size <= CAP_SCAN) __CPROVER_assume(((struct detached_bitstream *)scan_q.root[0])->offset >= head_offs);
   __CPROVER_assume(I_X);
+  /* ASSUMED (undecided residue, DESIGN C11 O11.2): while the parser holds its reserved unit the order queue has room for the
+     block it may accept -- the code's own assert(size < modulus) in push() states the claim; the inductive unit/slot
+     representation argument behind it is not mechanised */
+  if (g_task == T_PARSE) __CPROVER_assume(order_q.size < order_q.modulus);
+  if (g_task == T_SCAN) __CPROVER_assume(unord_q.size < CAP_UNORD);     /* ASSUMED likewise for the candidate queue (speculative blocks never hold the reserved unit / slots) */
+  g_s_order = order_q.size; g_s_units = work_units;
+  g_s_pt = parse_token; g_s_pd = parsing_done; g_s_pbs = parser_bs; g_s_par = par;
 }
 
 static void spec_at_unlock(void)
@@ -119,6 +140,13 @@ static void spec_at_unlock(void)
   }
 }
 
+/* GUARANTEE side of the token-ownership rely: a task that does not hold the parse token leaves the parser-owned state alone */
+#define TOKEN_HOLDER() (g_task == T_PARSE || g_task == T_ATTACH || g_task == 0 || (g_task == T_RETRIEVE && (g_master || g_became_master)))
+#define PARSER_STATE_UNTOUCHED() __CPROVER_assert(TOKEN_HOLDER() || (parse_token == g_s_pt && parsing_done == g_s_pd && parser_bs.offset == g_s_pbs.offset && parser_bs.live == g_s_pbs.live && \
+    parser_bs.buff == g_s_pbs.buff && parser_bs.eof == g_s_pbs.eof && POS_EQ(parser_bs.pos, g_s_pbs.pos) && par.state == g_s_par.state && par.bs100k == g_s_par.bs100k && \
+    par.stored_crc == g_s_par.stored_crc && par.computed_crc == g_s_par.computed_crc && par.stream_mode == g_s_par.stream_mode), \
+    "parser-owned state (parse token, parsing_done, parser position, parser automaton) is modified only by the token holder")
+
 void sched_lock(void)
 {
   __CPROVER_assert(!g_held, "sched_lock: not already inside the monitor");
@@ -129,6 +157,7 @@ void sched_unlock(void)
   __CPROVER_assert(g_held, "sched_unlock: inside the monitor");
   g_unlocks++; spec_at_unlock();
   __CPROVER_assert(I_X, "monitor invariant I_x holds when the task leaves the monitor");
+  PARSER_STATE_UNTOUCHED();
   g_held = 0;
 }
 
@@ -162,6 +191,61 @@ void down_heap(void *vroot, unsigned size)
   root[size] = head;
 }
 
+void source_release_buffer(void *b);
+
+/* ---- contract of attach()/detach() used in place of their bodies when g_stub_ad is set (weave: expand.c.spec).
+   Every clause below is an assertion of h_attach_detach on the REAL bodies. */
+static struct position enc_pos(uintmax_t P)
+{
+  /* canonical position of absolute bit P: major = word / G, minor = (word % G) << 32 | (bit << 27), G = in_granul / 4 (a power of two) */
+  struct position p; uintmax_t w = P / 32;
+  if (in_granul == 262144u) { p.major = w >> 16; p.minor = ((w & 65535u) << 32) + ((P % 32) << 27); }
+  else { p.major = w >> 13; p.minor = ((w & 8191u) << 32) + ((P % 32) << 27); }
+  return p;
+}
+static struct bitstream verif_attach(struct detached_bitstream dbs)
+{
+  struct bitstream bs;
+  __CPROVER_assert(g_held, "attach(): called inside the monitor");
+  __CPROVER_assert(dbs.offset >= head_offs && dbs.offset <= tail_offs && (dbs.offset < tail_offs || eof), "attach(): the position lies in the buffered input (or at its end after end of file)");
+  bs.live = dbs.live; bs.buff = dbs.buff; bs.eof = dbs.eof;
+  if (dbs.offset == tail_offs) { bs.block = 0; bs.data = 0; bs.limit = 0; bs.eof = (bs.live < 32u); g_att_avail = 0; }
+  else {
+    struct in_blk *b = 0; unsigned i;
+    for (i = 0; i < 2; i++) if (i < input_q.size) { struct in_blk *c = input_q.root[dq_index(input_q.head, i, input_q.modulus)]; if (dbs.offset >= c->offset && dbs.offset - c->offset < c->size) b = c; }
+    __CPROVER_assume(b != 0);                  /* input_q covers [head_offs, tail_offs) contiguously (established by env_runs for the bounded queue) */
+    b->ref_count++; bs.block = b; bs.data = &g_win[0]; bs.limit = &g_win[1];
+    g_att_avail = b->offset + b->size - dbs.offset;
+  }
+  g_att_remain = g_att_avail;
+  sched_unlock();
+  return bs;
+}
+static struct detached_bitstream verif_detach(struct bitstream bs)
+{
+  struct detached_bitstream dbs; struct in_blk *blk = bs.block; uintmax_t offset;
+  sched_lock();
+  offset = blk != 0 ? blk->offset + blk->size - g_att_remain : tail_offs;
+  if (offset > tail_offs) offset = tail_offs;
+  dbs.live = bs.live; dbs.buff = bs.buff; dbs.eof = bs.eof; dbs.offset = offset;
+  dbs.pos = enc_pos(32 * offset - bs.live);
+  if (blk && --blk->ref_count == 0) { source_release_buffer(blk->buffer); free(blk); }
+  g_my_block = 0;                              /* this thread's reference is gone */
+  return dbs;
+}
+/* the codec stubs consume words of the attached block through the ghost counter */
+static void consume_words(struct bitstream *bs, int all)
+{
+  if (g_stub_ad) {
+    uintmax_t c; __CPROVER_assume(c <= g_att_remain); if (all) c = g_att_remain;
+    g_att_remain -= c;
+    if (bs->data != 0 && g_att_remain == 0) bs->data = bs->limit;
+  } else if (bs->data != 0) {
+    size_t adv; __CPROVER_assume(adv <= (size_t)(bs->limit - bs->data)); bs->data += adv;
+    if (all) bs->data = bs->limit;
+  }
+}
+
 /* ---- callees outside expand.c (ASSUMED contracts) */
 void *xmalloc(size_t n) { return fresh(n); }
 static int parse_fail_allowed(void);
@@ -187,12 +271,15 @@ int parse(struct parser_state *ps, struct header *hd, struct bitstream *bs, unsi
   __CPROVER_assert(!g_held, "parse() runs outside the monitor");
   g_my_block = bs->block;
   int rv; __CPROVER_assume(rv == OK || rv == MORE || rv == FINISH || rv == ERR_HEADER || rv == ERR_STRMCRC || rv == ERR_EOF);
+#ifdef DP_RV     /* the do_parse obligation is split by parse() verdict into one instance per value of its return set */
+  rv = DP_RV;
+#endif
   struct header h; *hd = h; g_parse_hd = h;
   if (rv == FINISH) { unsigned g; __CPROVER_assume(g == 0 || g == 16 || g == 32); *garbage = g; g_parse_garbage = g; }
   /* consumes bits: the reader moves forward inside its block */
-  if (bs->data != 0) { size_t adv; __CPROVER_assume(adv <= (size_t)(bs->limit - bs->data)); bs->data += adv; }
+  consume_words(bs, rv == MORE || rv == FINISH || rv == ERR_EOF);
   { unsigned lv; __CPROVER_assume(lv <= 63); bs->live = lv; }
-  if (rv == MORE || rv == FINISH || rv == ERR_EOF) { if (bs->data != 0) bs->data = bs->limit; __CPROVER_assume(bs->live < 16); }   /* parse contract E5 */
+  if (rv == MORE || rv == FINISH || rv == ERR_EOF) __CPROVER_assume(bs->live < 16);   /* parse contract E5 */
   g_parse_rv = rv;
   return rv;
 }
@@ -201,9 +288,9 @@ int scan(struct bitstream *bs, unsigned skip)
   __CPROVER_assert(!g_held, "scan() runs outside the monitor");
   g_my_block = bs->block;
   int rv; __CPROVER_assume(rv == OK || rv == MORE);
-  if (bs->data != 0) { size_t adv; __CPROVER_assume(adv <= (size_t)(bs->limit - bs->data)); bs->data += adv; }
+  consume_words(bs, rv == MORE);
   { unsigned lv; __CPROVER_assume(lv <= 63); bs->live = lv; }
-  if (rv == MORE) { if (bs->data != 0) bs->data = bs->limit; bs->live = 0; }
+  if (rv == MORE) bs->live = 0;
   g_scan_rv = rv;
   return rv;
 }
@@ -212,9 +299,8 @@ int retrieve(struct decoder_state *ds, struct bitstream *bs)
   __CPROVER_assert(!g_held, "retrieve() runs outside the monitor");
   g_my_block = bs->block;
   int rv; __CPROVER_assume(rv == OK || rv == MORE || (rv >= ERR_BITMAP && rv <= ERR_EOF));
-  if (bs->data != 0) { size_t adv; __CPROVER_assume(adv <= (size_t)(bs->limit - bs->data)); bs->data += adv; }
+  consume_words(bs, rv == MORE);
   { unsigned lv; __CPROVER_assume(lv <= 63); bs->live = lv; }
-  if (rv == MORE && bs->data != 0) bs->data = bs->limit;
   if (rv == OK) { free(ds->internal_state); ds->internal_state = 0; }
   g_retrieve_rv = rv;
   return rv;
@@ -248,6 +334,7 @@ static void setup3(int task, unsigned mu, unsigned ms)
   g_need = task == T_PARSE ? (N_RETR | N_SCAN | N_UNORD | N_INPUT) : task == T_RETRIEVE ? (N_RETR | N_SCAN | N_INPUT) : task == T_SCAN ? (N_SCAN | N_INPUT) :
            task == T_EMIT ? N_EMIT : task == T_REORDER ? N_REORD : task == T_ATTACH ? N_INPUT : task == T_INPUT ? 0 : (N_RETR | N_EMIT | N_REORD | N_SCAN | N_UNORD);
   g_my_intok = (task == T_INPUT);
+  g_stub_ad = (task == T_PARSE || task == T_SCAN || task == T_RETRIEVE);
   g_small_queues = (task == T_PARSE || task == T_SCAN || task == T_RETRIEVE || task == T_INPUT || task == T_ATTACH);
   env_runs();
   g_held = 1;
@@ -257,6 +344,7 @@ static void setup(int task) { setup3(task, 0, 0); }
     V_ASSERT(g_held, "task returns inside the monitor (lock balance)"); \
     g_my_units = 0; g_my_slots = 0; g_my_scans = 0; g_my_intok = 0; \
     V_ASSERT(I_X, "monitor invariant I_x holds at task exit with nothing held privately (every unit/slot taken was returned or handed to a queue)"); \
+    PARSER_STATE_UNTOUCHED(); \
   } while (0)
 
 /* ================= do_reorder: O5.3, O10.2, O15.2, O9.3 ================= */
@@ -406,20 +494,23 @@ void h_do_parse(void)
 {
   setup(T_PARSE);
   V_ASSUME(can_parse());
-  V_ASSUME(order_q.size < order_q.modulus);          /* ASSUMED: order_q occupancy (undecided residue) */
-  unsigned osz = order_q.size, wu0 = work_units;
   do_parse();
+  unsigned osz = g_s_order;                           /* order queue as found when the parser re-entered the monitor (detach()) */
   EXIT_CHECKS();
   int rv = g_parse_rv;
   V_ASSERT(rv == OK || rv == MORE || rv == FINISH, "do_parse returns only for OK/MORE/FINISH: every parse error reaches failf");
   if (rv == MORE) {
     V_ASSERT(parse_token && !parsing_done && order_q.size == osz && g_enq_retr == 0, "MORE: token given back, nothing created");
+#if !defined(DP_RV) || DP_RV_MORE
     V_CANARY("parse MORE");
+#endif
   } else if (rv == FINISH) {
     V_ASSERT(!(END_BITPOS > FILE_BITS), "FINISH is accepted only if the last stream ends inside the real file (not in the zero padding)");
     V_ASSERT(parse_token && parsing_done && g_src_close_calls == 1, "FINISH: parsing done, reader told to stop");
     V_ASSERT(empty(input_q) && empty(retr_q) && empty(scan_q) && empty(unord_q) && head_offs == tail_offs && order_q.size == osz, "FINISH: all speculative work and input released, order queue untouched");
+#if !defined(DP_RV) || DP_RV_FINISH
     V_CANARY("parse FINISH");
+#endif
   } else {
     unsigned li = dq_index(order_q.head, order_q.size - 1, order_q.modulus);
     V_ASSERT(order_q.size == osz + 1, "OK: exactly one order entry is appended");
@@ -428,9 +519,13 @@ void h_do_parse(void)
     if (g_enq_retr) {
       struct retr_blk *rb = g_enq_retr;
       V_ASSERT(rb->unord_link == 0 && rb->base.major == g_dp_pos_major && rb->base.minor == g_dp_pos_minor && !parse_token, "OK, no candidate at this position: a fresh retrieve job starts at the parser position and becomes the master");
+#if !defined(DP_RV) || DP_RV_OK
       V_CANARY("parse creates job");
+#endif
     } else {
+#if !defined(DP_RV) || DP_RV_OK
       V_CANARY("parse adopts candidate");
+#endif
     }
   }
 }
@@ -467,6 +562,8 @@ void h_do_retrieve(void)
   struct retr_blk old = *rb;
   g_my_link = old.unord_link;
   V_ASSUME(old.unord_link != 0 || !parse_token);       /* a parser-created job is the master: the parser waits for it (established in do_parse) */
+  V_ASSUME(old.unord_link == 0 || !(old.unord_link->complete && old.unord_link->legitimate) || !parse_token);   /* so is a candidate the parser confirmed */
+  g_master = old.unord_link == 0 || (old.unord_link->complete && old.unord_link->legitimate);
   do_retrieve();
   EXIT_CHECKS();
   if (g_enq_emit) {
@@ -486,6 +583,7 @@ void h_on_input_avail(void)
   size_t sz; V_ASSUME(sz >= 1 && sz <= in_granul);
   uint8_t *buf = fresh(in_granul);
   uintmax_t t0 = tail_offs;                             /* single writer of tail_offs: the reader thread itself */
+  V_ASSUME(t0 < ((uintmax_t)1 << 55));                  /* stated size bound: compressed input shorter than 2^57 bytes (I_x carries tail_offs < 2^56) */
   on_input_avail(buf, sz);
   V_ASSERT(!g_held, "on_input_avail: returns outside the monitor");
   if (g_enq_scan) {
@@ -540,15 +638,18 @@ void h_attach_detach(void)
   V_ASSUME(can_attach(d));
   V_ASSUME(32 * (__int128)d.offset >= d.live);
   uintmax_t P0 = 32 * d.offset - d.live;
+  unsigned rc_sum0 = 0; { unsigned i; for (i = 0; i < 2; i++) if (i < input_q.size) rc_sum0 += input_q.root[dq_index(input_q.head, i, input_q.modulus)]->ref_count; }
   struct bitstream bs = attach(d);
+  unsigned rc_sum1 = 0; { unsigned i; for (i = 0; i < 2; i++) if (i < input_q.size) rc_sum1 += input_q.root[dq_index(input_q.head, i, input_q.modulus)]->ref_count; }
   V_ASSERT(!g_held, "attach() leaves the monitor");
   V_ASSERT(bs.live == d.live && bs.buff == d.buff, "attach: buffered bits carried over");
   if (d.offset == tail_offs) {
-    V_ASSERT(bs.data == 0 && bs.limit == 0 && bs.block == 0 && bs.eof == (d.live < 32), "attach at end of input: no data, eof once fewer than 32 bits are buffered");
+    V_ASSERT(bs.data == 0 && bs.limit == 0 && bs.block == 0 && bs.eof == (d.live < 32) && rc_sum1 == rc_sum0, "attach at end of input: no data, no block referenced, eof once fewer than 32 bits are buffered");
   } else {
     struct in_blk *b = bs.block;
     V_ASSERT(b != 0 && d.offset >= b->offset && d.offset - b->offset < b->size, "attach: the block found is the one containing the word offset");
     V_ASSERT(bs.data == (const uint32_t *)b->buffer + (d.offset - b->offset) && bs.limit == (const uint32_t *)b->buffer + b->size, "attach: data/limit delimit the unread words of that block");
+    V_ASSERT(rc_sum1 == rc_sum0 + 1 && bs.eof == d.eof, "attach: takes exactly one reference on the block (it stays alive while the reader is outside the monitor); eof flag carried");
     /* consume some words and bits outside the monitor */
     size_t adv; V_ASSUME(adv <= (size_t)(bs.limit - bs.data)); bs.data += adv;
     unsigned lv; V_ASSUME(lv <= 63 && (lv <= d.live || adv > 0) && lv <= d.live + 32 * adv); bs.live = lv;
@@ -557,6 +658,7 @@ void h_attach_detach(void)
     uintmax_t P1 = 32 * words_at - lv;
     struct detached_bitstream e = detach(bs);
     V_ASSERT(g_held, "detach() re-enters the monitor");
+    V_ASSERT(e.live == bs.live && e.buff == bs.buff && e.eof == bs.eof, "detach: buffered bits and eof flag carried over");
     V_ASSERT(32 * (__int128)e.offset - e.live == (__int128)P1, "detach: the absolute bit position is exactly where the reader stopped");
     V_ASSERT(POS_EQ(e.pos, spec_pos(P1)), "detach: pos is the canonical position of that absolute bit (independent of block boundaries)");
     if (adv == 0 && lv == d.live) V_ASSERT(32 * (__int128)e.offset - e.live == (__int128)P0, "detach(attach(d)) without consumption preserves the bit position");
